@@ -3,6 +3,7 @@ package scengen
 import (
 	"encoding/json"
 	"fmt"
+	"math/bits"
 	"strings"
 
 	"pgregory.net/rapid"
@@ -86,9 +87,31 @@ var (
 
 func ptr[T any](v T) *T { return &v }
 
-func (g sgen) chance(label string, pct int) bool {
-	return rapid.IntRange(0, 99).Draw(g.t, label) < pct
+// uniform draws an integer in [0, n) without rapid's bias towards small
+// values (rapid.IntRange and SampledFrom prefer short bit lengths), bit by bit
+// from rapid.Bool with rejection.
+func uniform(t *rapid.T, label string, n int) int {
+	if n <= 1 {
+		return 0
+	}
+	nb := bits.Len(uint(n - 1))
+	for {
+		v := 0
+		for i := 0; i < nb; i++ {
+			if rapid.Bool().Draw(t, label) {
+				v |= 1 << i
+			}
+		}
+		if v < n {
+			return v
+		}
+	}
 }
+
+// pickU draws one of vals uniformly.
+func pickU[T any](t *rapid.T, label string, vals []T) T { return vals[uniform(t, label, len(vals))] }
+
+func (g sgen) chance(label string, pct int) bool { return uniform(g.t, label, 100) < pct }
 
 func (g sgen) optStr(label string, pct int, plain []string) *string {
 	if !g.chance(label+"?", pct) {
@@ -135,7 +158,7 @@ func (g sgen) heredocText(label string, lines []string) string {
 func (g sgen) source(i int, used map[string]bool, files map[string]bool) Source {
 	l := fmt.Sprintf("source[%d]", i)
 	s := Source{Name: g.name(l+".name", poolSourceNames, used)}
-	switch k := rapid.IntRange(0, 99).Draw(g.t, l+".kind"); {
+	switch k := uniform(g.t, l+".kind", 100); {
 	case k < 40:
 		s.Type = SourceCSV
 	case k < 65:
@@ -229,7 +252,7 @@ func IsRandFuncValue(v string) bool {
 
 func (g sgen) postprocessor(l string) Postprocessor {
 	p := Postprocessor{}
-	switch rapid.IntRange(0, 4).Draw(g.t, l+".kind") {
+	switch uniform(g.t, l+".kind", 5) {
 	case 0:
 		p.Type = PostJsonpath
 		p.Mapping = g.optKVs(l+".mapping", 92, poolJsonpathKeys, poolJsonpathValues, 3)
@@ -282,7 +305,7 @@ func (g sgen) request(i int, used map[string]bool) Request {
 	if g.chance(l+".templater?", 40) {
 		q.Templater = ptr(rapid.SampledFrom([]string{"text", "html"}).Draw(g.t, l+".templater"))
 	}
-	n := rapid.SampledFrom([]int{0, 0, 1, 1, 1, 2, 2, 3, 4}).Draw(g.t, l+".postprocessors#n")
+	n := pickU(g.t, l+".postprocessors#n", []int{0, 0, 1, 1, 1, 2, 2, 3, 4})
 	for j := 0; j < n; j++ {
 		q.Postprocessors = append(q.Postprocessors, g.postprocessor(fmt.Sprintf("%s.postprocessor[%d]", l, j)))
 	}
@@ -302,12 +325,12 @@ func (g sgen) call(i int, used map[string]bool) Call {
 		c.Payload = g.free(l+".payload", poolPayloads)
 		c.PayloadHeredoc = g.chance(l+".payload.heredoc.try", 30)
 	}
-	n := rapid.SampledFrom([]int{0, 0, 1, 1, 2}).Draw(g.t, l+".preprocessors#n")
+	n := pickU(g.t, l+".preprocessors#n", []int{0, 0, 1, 1, 2})
 	for j := 0; j < n; j++ {
 		c.Preprocessors = append(c.Preprocessors, CallPreprocessor{Type: "prepare",
 			Mapping: g.kvs(fmt.Sprintf("%s.preprocessor[%d].mapping", l, j), poolPreKeys, poolPreValues, 3)})
 	}
-	n = rapid.SampledFrom([]int{0, 0, 1, 1, 2}).Draw(g.t, l+".postprocessors#n")
+	n = pickU(g.t, l+".postprocessors#n", []int{0, 0, 1, 1, 2})
 	for j := 0; j < n; j++ {
 		pl := fmt.Sprintf("%s.postprocessor[%d]", l, j)
 		p := CallPostprocessor{Type: PostAssert}
@@ -324,27 +347,27 @@ func (g sgen) call(i int, used map[string]bool) Call {
 }
 
 func (g sgen) scenarios(stepNames []string) []Scenario {
-	n := rapid.SampledFrom([]int{1, 1, 2, 2, 2, 3, 3}).Draw(g.t, "scenarios#n")
+	n := pickU(g.t, "scenarios#n", []int{1, 1, 2, 2, 2, 3, 3})
 	if n > g.opts.maxScenarios() {
 		n = g.opts.maxScenarios()
 	}
-	factor := rapid.SampledFrom([]int64{1, 1, 2, 3, 10, 50}).Draw(g.t, "weight.factor")
+	factor := pickU(g.t, "weight.factor", []int64{1, 1, 2, 3, 10, 50})
 	used := map[string]bool{}
 	var out []Scenario
 	for i := 0; i < n; i++ {
 		l := fmt.Sprintf("scenario[%d]", i)
 		s := Scenario{Name: g.name(l+".name", poolScenarioNames, used)}
 		if g.chance(l+".weight?", 65) {
-			s.Weight = ptr(factor * int64(rapid.IntRange(1, 6).Draw(g.t, l+".weight")))
+			s.Weight = ptr(factor * int64(1+uniform(g.t, l+".weight", 6)))
 		}
 		if g.chance(l+".min_waiting_time?", 50) {
 			s.MinWaitingTime = ptr(int64(rapid.SampledFrom([]int{0, 1, 10, 1000, 60000}).Draw(g.t, l+".min_waiting_time")))
 		}
-		ns := rapid.IntRange(1, 6).Draw(g.t, l+".steps#n")
+		ns := 1 + uniform(g.t, l+".steps#n", 6)
 		for j := 0; j < ns; j++ {
 			sl := fmt.Sprintf("%s.step[%d]", l, j)
 			st := Step{}
-			form := rapid.IntRange(0, 9).Draw(g.t, sl+".form")
+			form := uniform(g.t, sl+".form", 10)
 			if j == 0 && form >= 8 {
 				form = 0 // a list cannot start with sleep()
 			}
@@ -380,7 +403,7 @@ func (g sgen) layout() Layout {
 }
 
 func (g sgen) sources() []Source {
-	n := rapid.IntRange(0, g.opts.maxSources()).Draw(g.t, "sources#n")
+	n := uniform(g.t, "sources#n", g.opts.maxSources()+1)
 	used, files := map[string]bool{}, map[string]bool{}
 	var out []Source
 	for i := 0; i < n; i++ {
@@ -394,7 +417,7 @@ func GenHTTP(t *rapid.T, o Opts) Model {
 	g := sgen{t: t, opts: o}
 	m := Model{Kind: "http"}
 	m.Sources = g.sources()
-	n := rapid.IntRange(1, o.maxSteps()).Draw(t, "requests#n")
+	n := 1 + uniform(t, "requests#n", o.maxSteps())
 	used := map[string]bool{}
 	for i := 0; i < n; i++ {
 		m.Requests = append(m.Requests, g.request(i, used))
@@ -412,7 +435,7 @@ func GenGRPC(t *rapid.T, o Opts) Model {
 	g := sgen{t: t, opts: o}
 	m := Model{Kind: "grpc"}
 	m.Sources = g.sources()
-	n := rapid.IntRange(1, o.maxSteps()).Draw(t, "calls#n")
+	n := 1 + uniform(t, "calls#n", o.maxSteps())
 	used := map[string]bool{}
 	for i := 0; i < n; i++ {
 		m.Calls = append(m.Calls, g.call(i, used))
@@ -427,7 +450,7 @@ func GenGRPC(t *rapid.T, o Opts) Model {
 
 // Gen draws an HTTP (60%) or gRPC (40%) description.
 func Gen(t *rapid.T, o Opts) Model {
-	if rapid.IntRange(0, 99).Draw(t, "kind") < 60 {
+	if uniform(t, "kind", 100) < 60 {
 		return GenHTTP(t, o)
 	}
 	return GenGRPC(t, o)
